@@ -44,15 +44,15 @@ def cur():
 
 # --------------------------------------------------------------------------- vars
 
-_VARS_CACHE: dict[int, frozenset] = {}
+_VARS_CACHE: dict = {}   # ast id -> (ast kept alive so the id cannot be recycled, frozenset of names)
 
 
 def expr_vars(e) -> frozenset:
-    """Names of the uninterpreted constants in e (memoised per AST id)."""
+    """Names of the uninterpreted constants in e (memoised per AST; the AST is kept alive)."""
     key = e.get_id()
     r = _VARS_CACHE.get(key)
     if r is not None:
-        return r
+        return r[1]
     out = set()
     seen = set()
     stack = [e]
@@ -64,7 +64,7 @@ def expr_vars(e) -> frozenset:
         seen.add(i)
         c = _VARS_CACHE.get(i)
         if c is not None:
-            out |= c
+            out |= c[1]
             continue
         if z3.is_const(t):
             if t.decl().kind() == z3.Z3_OP_UNINTERPRETED:
@@ -72,9 +72,9 @@ def expr_vars(e) -> frozenset:
         else:
             stack.extend(t.children())
     r = frozenset(out)
-    if len(_VARS_CACHE) > 200000:
+    if len(_VARS_CACHE) > 100000:
         _VARS_CACHE.clear()
-    _VARS_CACHE[key] = r
+    _VARS_CACHE[key] = (e, r)
     return r
 
 
